@@ -34,6 +34,9 @@ impl Prop for C03 {
     fn strategy(&self, tier: Tier) -> BoxedStrategy<HistCase> {
         gen::hist(tier.pick(24, 60), &[1, 1, 1, 2])
     }
+    fn extra_evidence(&self, root: &std::path::Path) -> serde_json::Value {
+        crate::engine::fuzz_stats(root, "graph_history")
+    }
     fn random_cases(&self, tier: Tier) -> u32 {
         tier.pick(150_000, 1_500_000)
     }
